@@ -335,9 +335,19 @@ fn dev_batch(seed: u64, part: usize, parts: usize) -> Report {
     }
     let mut report = Report::new();
     let mut cuts = vec![0u64; 1177 / 64 + 1];
+    // in this profile the evaluator's own debug assertions are live: the per-scope runs must still add up
+    let e2e = e2e_configs();
+    let singles: Vec<Option<(u64, Vec<u64>)>> = e2e.iter().map(|c| drain_tally(c, None).ok()).collect();
     for (i, n) in ns.iter().enumerate() {
         if i % parts == part {
             check_n(*n, &mut report, &mut cuts);
+            if *n <= 96 {
+                for (c, single) in e2e.iter().zip(singles.iter()) {
+                    if let Some(single) = single {
+                        check_e2e(*n, c, single, &mut report);
+                    }
+                }
+            }
         }
     }
     report.count("dev_profile_worker_counts", report.evaluations);
